@@ -548,42 +548,3 @@ impl TargetApi for Poisonable<RetryingLockCollection<SB>> {
 }
 coll_api!(BoxedLockCollection<[&'static Leaf; 2]>, [&'static Leaf; 2]);
 coll_api!(RetryingLockCollection<[&'static Leaf; 3]>, [&'static Leaf; 3]);
-
-// collections over bare lock references (built only if member guards hand such references out)
-macro_rules! bare_held {
-    ($t:ty, $e:expr) => {
-        impl<'g> Held for $t {
-            fn visit<'x>(&'x mut self, path: &[u8], _: &mut Vec<bool>) -> PayRef<'x> {
-                assert!(path.len() == 1, "happysim: bare-lock targets are flat");
-                let f: fn(&'x mut $t, usize) -> PayRef<'x> = $e;
-                f(self, path[0] as usize)
-            }
-        }
-    };
-}
-bare_held!(happylock::lockable::GuardSlice<MutexRef<'g, Pay, SimRawMutex>>, |s, i| PayRef::Mut(&mut *s[i]));
-bare_held!(happylock::lockable::GuardSlice<RwLockWriteRef<'g, Pay, SimRawRwLock>>, |s, i| PayRef::Mut(&mut *s[i]));
-bare_held!(happylock::lockable::GuardSlice<RwLockReadRef<'g, Pay, SimRawRwLock>>, |s, i| PayRef::Shared(&*s[i]));
-bare_held!(Box<[&'g mut Pay]>, |s, i| PayRef::Mut(&mut *s[i]));
-bare_held!(Box<[&'g Pay]>, |s, i| PayRef::Shared(&*s[i]));
-coll_api!(BoxedLockCollection<Vec<&'static R>>, Vec<&'static R>);
-impl TargetApi for BoxedLockCollection<Vec<&'static M>> {
-    type G<'a> = LockGuard<<Vec<&'static M> as happylock::lockable::Lockable>::Guard<'a>>;
-    type D<'a> = <Vec<&'static M> as happylock::lockable::Lockable>::DataMut<'a>;
-    fn lock<'a>(&'a self, key: ThreadKey) -> Self::G<'a> {
-        BoxedLockCollection::lock(self, key)
-    }
-    fn try_lock<'a>(&'a self, key: ThreadKey) -> Result<Self::G<'a>, ThreadKey> {
-        BoxedLockCollection::try_lock(self, key)
-    }
-    fn unlock<'a>(g: Self::G<'a>) -> ThreadKey {
-        BoxedLockCollection::<Vec<&'static M>>::unlock(g)
-    }
-    fn scoped_lock<'a, K: Keyable, Rt>(&'a self, key: K, f: &dyn Fn(Self::D<'a>) -> Rt) -> Rt {
-        BoxedLockCollection::scoped_lock(self, key, |d| f(d))
-    }
-    fn scoped_try_lock<'a, K: Keyable, Rt>(&'a self, key: K, f: &dyn Fn(Self::D<'a>) -> Rt) -> Result<Rt, K> {
-        BoxedLockCollection::scoped_try_lock(self, key, |d| f(d))
-    }
-    poison_api_noread!();
-}
